@@ -85,22 +85,36 @@ Record sinks := mkSinks {
   sk_err    : bool;               (* PostProcess returned an error *)
   sk_panic  : bool }.
 
-Definition postprocess (fixed : bool) (k : kind) (rs : list result) (pls : list payload) : sinks :=
+(* Sinks that can refuse: UpkeepStateUpdater.SetUpkeepState returns an error for the work ids in
+   [ufail]; RetryQueue.Enqueue returns an error for the work ids in [qfail] (the real queue never
+   does, the interface allows it).  The call is made all the same; the error is joined. *)
+Definition sink_err (ufail qfail : list N) (k : kind) (rs : list result) (enq : list (payload * Z)) : bool :=
+  existsb (fun e => memN (pl_wid (fst e)) qfail) enq
+  || (has_inelig k && existsb (fun r => memN (r_wid r) ufail) (filter inelig_ok rs)).
+
+(* the records the queue accepted *)
+Definition accepted (qfail : list N) (enq : list (payload * Z)) : list (payload * Z) :=
+  filter (fun e => negb (memN (pl_wid (fst e)) qfail)) enq.
+
+(* CombinedPostprocessor.PostProcess: every post-processor of the chain runs on the whole result
+   list whatever the earlier ones returned; the errors are joined *)
+Definition postprocess (fixed : bool) (ufail qfail : list N) (k : kind) (rs : list result) (pls : list payload) : sinks :=
   let staged := if has_stage k then filter elig_ok rs else [] in
   let inel := if has_inelig k then filter inelig_ok rs else [] in
   let props := if has_prop k then filter elig_ok rs else [] in
   if has_retry k then
     match retry_pp fixed rs 0 pls [] false with
-    | RpOk enq err => mkSinks staged inel props enq err false
+    | RpOk enq err => mkSinks staged inel props enq (err || sink_err ufail qfail k rs enq) false
     | RpPanic enq => mkSinks staged [] [] enq false true   (* eligible ran before, the rest never runs *)
     end
-  else mkSinks staged inel props [] false false.
+  else mkSinks staged inel props [] (sink_err ufail qfail k rs []) false.
 
 Section Process.
   Variable pipe  : list job -> list result.
   Variable bfail : list job -> bool.
   Variable cexp  : Z.
   Variable wlimit : nat.
+  Variable ufail qfail : list N.
 
   (* Observer.Process after the pre-processors: check pipeline, then the post-processor; a
      runner error ends the call before any post-processing *)
@@ -108,7 +122,7 @@ Section Process.
              (ord : list (list job) -> list (list job * Z)) : cache * counters * option sinks :=
     let '(c', cnt', o) := check pipe bfail cexp wlimit c cnt t pls ord in
     match o with
-    | Ok rs => (c', cnt', Some (postprocess fixed k rs pls))
+    | Ok rs => (c', cnt', Some (postprocess fixed ufail qfail k rs pls))
     | _ => (c', cnt', None)
     end.
 End Process.
@@ -204,7 +218,9 @@ Inductive pstep :=
 | SDeq (t : Z) (n : Z) (got : list payload).
     (* RetryQueue.Dequeue(n) at time t returned got (the retry flow's tick, or a probe) *)
 
-Record pl_case := mkPlCase { pc_cexp : Z; pc_divl : Z; pc_dexp : Z; pc_script : script; pc_steps : list pstep }.
+Record pl_case := mkPlCase { pc_cexp : Z; pc_divl : Z; pc_dexp : Z; pc_script : script;
+                             pc_ufail : list N; pc_qfail : list N;   (* work ids the updater / the queue refuses *)
+                             pc_steps : list pstep }.
 
 (* completion order oracle from the observation *)
 Fixpoint ord_of (done : list (N * Z)) (bs : list (list job)) : list (list job * Z) :=
@@ -227,14 +243,14 @@ Definition pl_model_step (wl : nat) (k : pl_case) (s : pstate) (st : pstep) : ps
   match st with
   | SProc kd t pls done o =>
       let sc := pc_script k in
-      let '(c', cnt', res) := process (spipe sc) (sfail sc) (pc_cexp k) wl true kd (ps_cache s) (ps_cnt s) t pls (ord_of done) in
+      let '(c', cnt', res) := process (spipe sc) (sfail sc) (pc_cexp k) wl (pc_ufail k) (pc_qfail k) true kd (ps_cache s) (ps_cnt s) t pls (ord_of done) in
       (* every observed invocation must have been used *)
       let nb := match unflatten (jobs_of (ps_cache s) (ps_cnt s) t pls) wl with Some bs => length bs | None => O end in
       let okord := Nat.eqb nb (length done) && Nat.eqb (length (ord_of done (match unflatten (jobs_of (ps_cache s) (ps_cnt s) t pls) wl with Some bs => bs | None => [] end))) nb in
       match res with
       | None => mkPS c' cnt' (ps_q s) (ps_mis s || negb okord || negb (N.eqb (so_err o) 1)) (ps_und s)
       | Some sk =>
-          let q' := if has_retry kd then enqueue (pc_divl k) (so_tq o) (ps_q s) (sk_enq sk) else ps_q s in
+          let q' := if has_retry kd then enqueue (pc_divl k) (so_tq o) (ps_q s) (accepted (pc_qfail k) (sk_enq sk)) else ps_q s in
           let same :=
             okord
             && N.eqb (so_err o) (if sk_panic sk then 3 else if sk_err sk then 2 else 0)
@@ -261,7 +277,7 @@ Definition pl_check_step (k : pl_case) (s : rq * bool * bool) (st : pstep) : rq 
   let '(q, ok, kf) := s in
   match st with
   | SProc kd t pls _ o =>
-      (enqueue (pc_divl k) (so_tq o) q (so_enq o),
+      (enqueue (pc_divl k) (so_tq o) q (accepted (pc_qfail k) (so_enq o)),
        ok && (C12_route_check kd pls o || kf_result_payload_misaligned kd pls o),
        kf || kf_result_payload_misaligned kd pls o)
   | SDeq t n got =>
